@@ -684,6 +684,10 @@ impl Mass for Locomotive {
     }
 
     fn expunge_mass_fields(&mut self) {
+        // baseline and ballast take part in the derived mass: leaving them set while the
+        // component masses are cleared would make every later `mass()` call fail
+        self.baseline_mass = None;
+        self.ballast_mass = None;
         match &mut self.loco_type {
             PowertrainType::ConventionalLoco(conv) => conv.expunge_mass_fields(),
             PowertrainType::HybridLoco(hev) => hev.expunge_mass_fields(),
